@@ -158,7 +158,10 @@ class MessagePackDocument(HierDictDocument):
                                and isinstance(ctx.in_string[0], memoryview):
             unpacker = self.mw_unpacker(**self.kwargs_unpacker)
             unpacker.feed(ctx.in_string[0])
-            ctx.in_document = next(x for x in unpacker)
+            try:
+                ctx.in_document = next(x for x in unpacker)
+            except (StopIteration, ValueError) as e:
+                raise MessagePackDecodeError(repr(e))
 
         else:
             try:
